@@ -32,6 +32,83 @@ type world struct {
 	partSet    bool
 	attrs      map[*gocql.HostInfo]hostAttr
 	tables     map[string][]tabEntry
+	// the HISTORY of notifier calls per host id (from the op lines alone): the property's own definition of
+	// "a host the policy knows and that is up" (Lean: Policies.statusOf / Status.expected)
+	hist     map[int]*hstat
+	tableDup map[string]bool
+	// hot: the rotation counter was preset into the region of the known finding KF-C11-3 (>= 2^63-4096)
+	hot bool
+	// the previous pick, if it was a full drain handed to the round-robin policy as it is and nothing
+	// happened since (rotation of the starting host between successive picks)
+	lastPlain []*gocql.HostInfo
+}
+
+type hstat struct {
+	known bool
+	last  string // "", add, remove, hup, hdown
+}
+
+func (w *world) stat(id int) hstat {
+	if st, ok := w.hist[id]; ok {
+		return *st
+	}
+	return hstat{}
+}
+
+// expected: the property's words - added and not removed since; up unless the last notifier call was
+// HostDown; HostInfo state up.
+func (st hstat) expected(isUp bool) bool { return st.known && st.last != "hdown" && isUp }
+
+// ghost: HostUp for a host that is not known (excluded condition of KF-C11-4)
+func (st hstat) ghost() bool { return !st.known && st.last == "hup" }
+
+func (w *world) record(ev string, id int) {
+	st, ok := w.hist[id]
+	if !ok {
+		st = &hstat{}
+		w.hist[id] = st
+	}
+	switch ev {
+	case "add":
+		st.known = true
+	case "remove":
+		st.known = false
+	}
+	st.last = ev
+}
+
+// alias: two defined host objects share a connect address (the lists identify hosts by address; the
+// history oracle assumes one object per address)
+func (w *world) alias() bool {
+	seen := map[string]bool{}
+	for _, h := range w.hosts {
+		a := h.ConnectAddress().String()
+		if seen[a] {
+			return true
+		}
+		seen[a] = true
+	}
+	return false
+}
+
+func (w *world) sortedIDs() []int {
+	ids := make([]int, 0, len(w.hosts))
+	for id := range w.hosts {
+		ids = append(ids, id)
+	}
+	sort.Ints(ids)
+	return ids
+}
+
+// tablesHaveDup: some replica table installed by a `repl` line (whether or not the policy took it) has a
+// replica list with a duplicate
+func (w *world) tablesHaveDup() bool {
+	for _, d := range w.tableDup {
+		if d {
+			return true
+		}
+	}
+	return false
 }
 
 type hostAttr struct {
@@ -105,7 +182,17 @@ func (w *world) specReplicas(ks string, tokS string, perms string) (reps []*gocq
 		}
 		return reps, true, false
 	}
-	_, taHosts, _ := gocql.VerifPolicyLists(w.pol)
+	var taHosts []*gocql.HostInfo
+	if w.alias() {
+		_, taHosts, _ = gocql.VerifPolicyLists(w.pol)
+	} else {
+		// the token-aware policy's own list = the hosts added and not removed since (history)
+		for _, id := range w.sortedIDs() {
+			if w.stat(id).known {
+				taHosts = append(taHosts, w.hosts[id])
+			}
+		}
+	}
 	var owner, first *gocql.HostInfo
 	best, lo := -1, -1
 	for _, h := range taHosts {
@@ -252,12 +339,19 @@ func permsFor(seed int64) string {
 	return strings.Join(parts, ";")
 }
 
+// VERIF_NO_ORACLE=1 (self-test of the spec-backed op only): the harness does not evaluate the history /
+// rotation oracle itself, so that a breach shows up as a disagreement of `offer` with the specification's answer
+var noOracle = os.Getenv("VERIF_NO_ORACLE") != ""
+
 func (w *world) exec(op string) (res string) {
 	defer func() {
 		if r := recover(); r != nil {
 			res = "crash:" + strings.ReplaceAll(fmt.Sprint(r), "\n", " ")
 			if strings.Contains(res, "nil pointer dereference") {
 				res = "crash:nil-host-dereference"
+			}
+			if strings.Contains(res, "index out of range") {
+				res = "crash:index-out-of-range"
 			}
 			if os.Getenv("VERIF_DEBUG") != "" {
 				fmt.Fprintf(os.Stderr, "crash on %q: %v\n", op, r)
@@ -295,6 +389,10 @@ func (w *world) exec(op string) (res string) {
 		w.partSet = w.isTA && f[7] == "1"
 		w.attrs = map[*gocql.HostInfo]hostAttr{}
 		w.tables = map[string][]tabEntry{}
+		w.hist = map[int]*hstat{}
+		w.tableDup = map[string]bool{}
+		w.hot = false
+		w.lastPlain = nil
 		if w.isTA {
 			w.pol = newTA(fb, f[5] == "1", f[6] == "1")
 			gocql.VerifTAInit(w.pol, "verif_session_ks")
@@ -330,6 +428,8 @@ func (w *world) exec(op string) (res string) {
 		if !ok {
 			return "bad-op"
 		}
+		w.lastPlain = nil
+		w.record(f[0], atoi(f[1]))
 		switch f[0] {
 		case "add":
 			w.pol.AddHost(h)
@@ -346,9 +446,25 @@ func (w *world) exec(op string) (res string) {
 		if !ok {
 			return "bad-op"
 		}
+		w.lastPlain = nil
 		gocql.VerifSetHostUp(h, f[2] == "1")
 		return "ok"
+	case "ctr":
+		if len(f) != 2 {
+			return "bad-op"
+		}
+		n, err := strconv.ParseUint(f[1], 10, 64)
+		if err != nil {
+			return "bad-op"
+		}
+		w.lastPlain = nil
+		if !gocql.VerifSetPickCount(w.pol, n) {
+			return "crash:verif hook: the policy has no rotation counter named lastUsedHostIdx"
+		}
+		w.hot = n >= (1<<63)-4096
+		return "ok"
 	case "repl":
+		w.lastPlain = nil
 		var toks []string
 		var hs [][]*gocql.HostInfo
 		for _, e := range f[2:] {
@@ -362,6 +478,12 @@ func (w *world) exec(op string) (res string) {
 			}
 			hs = append(hs, l)
 		}
+		w.tableDup["ks"+f[1]] = false
+		for _, l := range hs {
+			if hasDup(l) {
+				w.tableDup["ks"+f[1]] = true
+			}
+		}
 		if w.isTA {
 			if gocql.VerifTASetReplicas(w.pol, "ks"+f[1], toks, hs) {
 				tab := make([]tabEntry, len(hs))
@@ -373,35 +495,50 @@ func (w *world) exec(op string) (res string) {
 			}
 		}
 		return "ok"
-	case "pick":
-		if len(f) != 5 {
+	case "pick", "offer":
+		// pick <ks|-> <tok|-> <limit> <perms|->      offer <ks|-> <tok|-> <perms|->  (= full drain, answer: sorted ids)
+		isOffer := f[0] == "offer"
+		if (isOffer && len(f) != 4) || (!isOffer && len(f) != 5) {
 			return "bad-op"
+		}
+		limitS, perms := "1000", f[3]
+		if !isOffer {
+			limitS, perms = f[3], f[4]
+		}
+		if isOffer && w.offerExcluded(f[1], f[2], perms) != "" {
+			return "excluded"
 		}
 		var rk []byte
 		if f[1] != "-" && f[2] != "-" {
 			rk = []byte(tok(atoi(f[2])))
 		}
-		if f[4] != "-" {
+		if perms != "-" {
 			// the op line carries, for every replica-list length, the permutation the shuffle must
 			// apply; seeds come from a small space so that the seed is recovered from the line.
-			sd, ok := findSeed(f[4])
+			sd, ok := findSeed(perms)
 			if !ok {
 				return "bad-op"
 			}
 			gocql.VerifSeedShuffle(sd)
 		}
 		ksName := "ks" + f[1]
-		limit := atoi(f[3])
+		limit := atoi(limitS)
 		// the specified head is computed BEFORE the pick (state of the hosts as the iterator will see it)
-		var head []*gocql.HostInfo
+		var head, headAny []*gocql.HostInfo
 		dupReps := false
 		// (a replica list with duplicates - the C10 defect's business, excluded from the uniqueness theorems -
 		// is left to the model-vs-code comparison)
-		if reps, known, _ := w.specReplicas(f[1], f[2], f[4]); known && !hasDup(reps) {
-			head = w.specHead(reps)
-		} else if known {
-			dupReps = true
+		reps, known, _ := w.specReplicas(f[1], f[2], perms)
+		if known {
+			headAny = w.specHead(reps)
+			if !hasDup(reps) {
+				head = headAny
+			} else {
+				dupReps = true
+			}
 		}
+		prevPlain := w.lastPlain
+		w.lastPlain = nil
 		it := w.pol.Pick(gocql.VerifQuery(ksName, rk))
 		var got []*gocql.HostInfo
 		for n := 0; n < limit; n++ {
@@ -428,10 +565,35 @@ func (w *world) exec(op string) (res string) {
 			}
 		}
 		// ... and on a full drain: only up hosts, every up host, no host twice
-		if limit >= 1000 {
-			if v := w.oracle(got, len(head), dupReps); v != "" {
+		if limit >= 1000 && !noOracle {
+			if v := w.oracle(got, len(head), dupReps, headAny); v != "" {
 				return "crash:property violated on the real code: " + v + " offered=" + w.showIDs(got)
 			}
+			// ... and between two successive full drains handed to the round-robin policy as they are
+			// (nothing else in between): the starting host of every tier has moved on by one
+			if !known && !w.hot {
+				if prevPlain != nil {
+					if v := w.rotation(prevPlain, got); v != "" {
+						return "crash:property violated on the real code: " + v + " previous=" + w.showIDs(prevPlain) + " offered=" + w.showIDs(got)
+					}
+				}
+				w.lastPlain = got
+			}
+		}
+		if isOffer {
+			ids := make([]int, len(got))
+			for i, h := range got {
+				ids[i] = w.ids[h]
+			}
+			sort.Ints(ids)
+			if len(ids) == 0 {
+				return "-"
+			}
+			ss := make([]string, len(ids))
+			for i, v := range ids {
+				ss[i] = strconv.Itoa(v)
+			}
+			return strings.Join(ss, ",")
 		}
 		return w.showIDs(got)
 	case "race":
@@ -440,11 +602,41 @@ func (w *world) exec(op string) (res string) {
 	return "bad-op"
 }
 
+// offerExcluded: the excluded conditions of the theorem C11_history_exact_partial, decided from the op
+// lines alone: "" = none (the op `offer` is spec-backed there), otherwise the class of the exclusion.
+func (w *world) offerExcluded(ks, tokS, perms string) string {
+	if w.alias() {
+		return "alias"
+	}
+	if w.hot {
+		return "ctr63" // KF-C11-3
+	}
+	for _, id := range w.sortedIDs() {
+		if w.stat(id).ghost() {
+			return "ghost" // KF-C11-4
+		}
+	}
+	if w.tablesHaveDup() {
+		return "duptable"
+	}
+	if reps, known, _ := w.specReplicas(ks, tokS, perms); known {
+		for _, h := range w.specHead(reps) {
+			if !w.stat(w.ids[h]).expected(true) {
+				return "stale" // KF-C11-5
+			}
+		}
+	}
+	return ""
+}
+
 // oracle checks the property itself on a fully drained sequence of the real iterator: only up hosts,
-// every up host of the policy's lists, no host twice (token-aware: unless the replica list itself has a
-// duplicate), and after the replica phases (the first nHead hosts) nearer tiers before farther ones
-// (theorems C11_policy_all_states, C11_tokenaware_all_states).
-func (w *world) oracle(got []*gocql.HostInfo, nHead int, dupReps bool) string {
+// every host the HISTORY expects (added, not removed since, last notifier call not HostDown, state up -
+// theorem C11_history_complete), no host the history does not expect except under the excluded conditions
+// of C11_history_exact_partial (a ghost: KF-C11-4; a stale replica in the specified head: KF-C11-5), no host
+// twice (token-aware: unless the replica list itself has a duplicate), and after the replica phases (the
+// first nHead hosts) nearer tiers before farther ones. With two host objects on one address (alias) the
+// history definition is not applicable and the policy's own lists are used for "the hosts it knows".
+func (w *world) oracle(got []*gocql.HostInfo, nHead int, dupReps bool, headAny []*gocql.HostInfo) string {
 	seen := map[*gocql.HostInfo]int{}
 	for _, h := range got {
 		if !h.IsUp() {
@@ -452,11 +644,29 @@ func (w *world) oracle(got []*gocql.HostInfo, nHead int, dupReps bool) string {
 		}
 		seen[h]++
 	}
-	layers, _, _ := gocql.VerifPolicyLists(w.pol)
-	for _, l := range layers {
-		for _, h := range l {
-			if h != nil && h.IsUp() && seen[h] == 0 {
-				return "up host not offered"
+	if w.alias() {
+		layers, _, _ := gocql.VerifPolicyLists(w.pol)
+		for _, l := range layers {
+			for _, h := range l {
+				if h != nil && h.IsUp() && seen[h] == 0 {
+					return "up host not offered"
+				}
+			}
+		}
+	} else {
+		inHead := map[*gocql.HostInfo]bool{}
+		for _, h := range headAny {
+			inHead[h] = true
+		}
+		for _, id := range w.sortedIDs() {
+			h := w.hosts[id]
+			st := w.stat(id)
+			if st.expected(h.IsUp()) {
+				if seen[h] == 0 {
+					return fmt.Sprintf("host %d is known and up by the history (added, not removed, last call %s, state up) but is not offered", id, st.last)
+				}
+			} else if seen[h] > 0 && !st.ghost() && !inHead[h] {
+				return fmt.Sprintf("host %d is offered but the history does not expect it (known=%v last call=%q)", id, st.known, st.last)
 			}
 		}
 	}
@@ -470,6 +680,51 @@ func (w *world) oracle(got []*gocql.HostInfo, nHead int, dupReps bool) string {
 			if w.tier(got[i-1]) > w.tier(got[i]) {
 				return "farther tier offered before a nearer one after the replica phases"
 			}
+		}
+	}
+	return ""
+}
+
+// rotation: prev and next are the full sequences of two successive picks of the round-robin policy with
+// nothing in between. Per tier the next sequence is the previous one rotated by one (theorem
+// C11_rr_rotates_partial) - or the previous one itself if the host the previous pick started its scan at is
+// down; if every listed host of the tier is up (history; not decidable with aliases) it must be the rotation.
+func (w *world) rotation(prev, next []*gocql.HostInfo) string {
+	allUp := !w.alias()
+	if allUp {
+		for _, id := range w.sortedIDs() {
+			st := w.stat(id)
+			if (st.last == "add" || st.last == "hup") && !w.hosts[id].IsUp() {
+				allUp = false
+			}
+		}
+	}
+	for t := 0; t <= 2; t++ {
+		var a, b []*gocql.HostInfo
+		for _, h := range prev {
+			if w.tier(h) == t {
+				a = append(a, h)
+			}
+		}
+		for _, h := range next {
+			if w.tier(h) == t {
+				b = append(b, h)
+			}
+		}
+		if len(a) != len(b) {
+			return fmt.Sprintf("tier %d: successive picks offer different numbers of hosts", t)
+		}
+		same, rot := true, true
+		for i := range a {
+			if b[i] != a[i] {
+				same = false
+			}
+			if b[i] != a[(i+1)%len(a)] {
+				rot = false
+			}
+		}
+		if !rot && !(same && !allUp) {
+			return fmt.Sprintf("tier %d: the starting host did not move on by one between successive picks", t)
 		}
 	}
 	return ""
@@ -533,12 +788,7 @@ func (g *gen) scenario(maxHosts, nOps int) {
 	g.nonlocal = g.ta && r.Bool()
 	partSet := r.Intn(8) != 0
 	g.ldc, g.lrack = r.Intn(2), r.Intn(2)
-	b := func(x bool) string {
-		if x {
-			return "1"
-		}
-		return "0"
-	}
+	b := b01
 	g.emit(fmt.Sprintf("reset %s %s %d %d %s %s %s", g.kind, b(g.ta), g.ldc, g.lrack, b(shuffle), b(g.nonlocal), b(partSet)), "reset/"+g.kind+"/ta"+b(g.ta), false)
 	g.n = 1 + r.Intn(maxHosts)
 	usedTok := map[int]bool{}
@@ -648,17 +898,25 @@ func (g *gen) pick() {
 	if r.Intn(4) == 0 {
 		limit = r.Intn(6)
 	}
+	g.pickWith(ks, tk, limit, r.Intn(2) == 0)
+}
+
+// pickWith emits one pick. A full drain under none of the excluded conditions of C11_history_exact_partial
+// is emitted as the SPEC-BACKED op `offer` (if wantOffer); every other pick as `pick` (sequence compared with
+// the model; the harness evaluates the property on the real sequence), its class naming the exclusion.
+func (g *gen) pickWith(ks, tk string, limit int, wantOffer bool) string {
+	r := g.r
 	perms := "-"
 	if g.w.shuf {
 		perms = permsFor(int64(r.Intn(seedSpace)))
 	}
-	cls := "pick/" + g.kind
+	cls := "/" + g.kind
 	if g.ta {
 		cls += "/ta"
 	} else {
 		cls += "/plain"
 	}
-	if ks == "-" {
+	if ks == "-" || tk == "-" {
 		cls += "/nokey"
 	} else {
 		cls += "/key"
@@ -675,7 +933,194 @@ func (g *gen) pick() {
 			cls += "-dup"
 		}
 	}
-	g.emit(fmt.Sprintf("pick %s %s %d %s", ks, tk, limit, perms), cls, true)
+	excl := g.w.offerExcluded(ks, tk, perms)
+	if limit >= 1000 && excl == "" && wantOffer {
+		return g.emit(fmt.Sprintf("offer %s %s %s", ks, tk, perms), "offer"+cls, true)
+	}
+	if excl != "" {
+		cls += "/x-" + excl
+	}
+	return g.emit(fmt.Sprintf("pick %s %s %d %s", ks, tk, limit, perms), "pick"+cls, true)
+}
+
+func b01(x bool) string {
+	if x {
+		return "1"
+	}
+	return "0"
+}
+
+// boundaryScenario (family "any number of successive picks"): a policy with 2..7 hosts - most of them in
+// the local tier, so that tiers of 3, 5, 6, 7 hosts occur, sizes that do not divide a power of two - whose
+// rotation counter is PRESET to B-k, k = 1..8, for boundaries B of integer representations (2^15, 2^16, 2^31,
+// 2^32, 2^53, 2^62: cold; 2^63 and 2^64: the region of the known finding KF-C11-3, `hot`), followed by 16
+// picks across the boundary (full drains mostly: no panic, complete, unique, and the starting host of each
+// tier moves on by one from pick to pick).
+func (g *gen) boundaryScenario(hot bool) {
+	r := g.r
+	g.kind = []string{"rr", "dc", "rack"}[r.Intn(3)]
+	g.ta = r.Intn(2) == 0
+	shuffle := g.ta && r.Intn(3) == 0
+	g.nonlocal = g.ta && r.Bool()
+	g.ldc, g.lrack = r.Intn(2), r.Intn(2)
+	g.emit(fmt.Sprintf("reset %s %s %d %d %s %s 1", g.kind, b01(g.ta), g.ldc, g.lrack, b01(shuffle), b01(g.nonlocal)), "reset/"+g.kind+"/ta"+b01(g.ta), false)
+	g.n = 2 + r.Intn(6)
+	for id := 1; id <= g.n; id++ {
+		dc, rack := g.ldc, g.lrack
+		if r.Intn(4) == 0 {
+			dc = 1 - dc
+		}
+		if r.Intn(4) == 0 {
+			rack = 1 - rack
+		}
+		g.emit(fmt.Sprintf("host %d %d %d %d %d", id, id, dc, rack, id*16+r.Intn(9)*1000), "host", false)
+		g.emit(fmt.Sprintf("add %d", id), "add", true)
+	}
+	if r.Intn(4) == 0 {
+		for k := 1 + r.Intn(2); k > 0; k-- {
+			g.emit(fmt.Sprintf("state %d 0", 1+r.Intn(g.n)), "state", false)
+		}
+	}
+	if g.ta && r.Intn(3) != 0 {
+		g.repl()
+	}
+	cold := []uint64{1 << 15, 1 << 16, 1 << 31, 1 << 32, 1 << 53, 1 << 62}
+	for round := 0; round < 2; round++ {
+		var base uint64
+		name := ""
+		if hot {
+			if r.Bool() {
+				base, name = 1<<63, "2^63"
+			} else {
+				base, name = 0, "2^64" // 0 - k wraps to 2^64 - k
+			}
+		} else {
+			i := r.Intn(len(cold))
+			if r.Intn(3) != 0 {
+				i = 2 + r.Intn(2) // 2^31 and 2^32 most often
+			}
+			base = cold[i]
+			name = fmt.Sprintf("2^%d", []int{15, 16, 31, 32, 53, 62}[i])
+		}
+		k := uint64(1 + r.Intn(8))
+		g.emit(fmt.Sprintf("ctr %d", base-k), "ctr/"+name, true)
+		for i := 0; i < 16; i++ {
+			switch x := r.Intn(10); {
+			case x < 7 || !g.ta:
+				if x == 9 {
+					g.pickWith("-", "-", r.Intn(4), false)
+				} else {
+					g.pickWith("-", "-", 1000, r.Intn(3) == 0)
+				}
+			default:
+				g.pickWith(strconv.Itoa(r.Intn(2)), strconv.Itoa(r.Intn(10000)), 1000, r.Intn(3) == 0)
+			}
+		}
+	}
+}
+
+var evNames = []string{"add", "remove", "hup", "hdown"}
+
+// historyScenario (family "AddHost / RemoveHost / HostUp / HostDown for the SAME host in every order"): three
+// hosts in different tiers; the notifier calls of `seq` are applied to the focus host 1 (the others get a call
+// now and then); HostInfo states follow the session's habit (down before HostDown, up before HostUp) most of
+// the time; after every call the policy is observed with a full drain without routing key and - token-aware -
+// with a routing key (keyspace with a replica table, keyspace without): `offer` (spec-backed: exactly the hosts
+// the history expects) unless an excluded condition holds, then `pick`.
+func (g *gen) historyScenario(kind string, ta bool, seq []int) {
+	r := g.r
+	g.kind, g.ta = kind, ta
+	shuffle := ta && r.Intn(4) == 0
+	g.nonlocal = ta && r.Bool()
+	g.ldc, g.lrack = 0, 0
+	g.emit(fmt.Sprintf("reset %s %s 0 0 %s %s 1", kind, b01(ta), b01(shuffle), b01(g.nonlocal)), "reset/"+kind+"/ta"+b01(ta), false)
+	places := [][2]int{{0, 0}, {0, 1}, {1, 0}}
+	g.n = 3
+	rot := r.Intn(3)
+	for id := 1; id <= 3; id++ {
+		pl := places[(id-1+rot)%3]
+		if r.Intn(4) == 0 {
+			pl = places[r.Intn(3)]
+		}
+		g.emit(fmt.Sprintf("host %d %d %d %d %d", id, id, pl[0], pl[1], id*100), "host", false)
+	}
+	for id := 2; id <= 3; id++ {
+		if r.Intn(6) != 0 {
+			g.emit(fmt.Sprintf("add %d", id), "add", true)
+		}
+	}
+	if ta && r.Intn(4) != 0 {
+		g.emit("repl 0 150:1,2 250:2,3 350:3,1", "repl", false)
+	}
+	observe := func() {
+		g.pickWith("-", "-", 1000, true)
+		if ta {
+			// token 120 -> table entry 150 (replicas 1,2) in keyspace 0; keyspace 1 has no table: ring owner
+			g.pickWith(strconv.Itoa(r.Intn(2)), strconv.Itoa(100+r.Intn(300)), 1000, true)
+		}
+	}
+	for _, e := range seq {
+		ev := evNames[e]
+		switch ev {
+		case "hdown":
+			if r.Intn(4) != 0 {
+				g.emit("state 1 0", "state", false)
+			}
+		case "hup":
+			if r.Intn(4) != 0 {
+				g.emit("state 1 1", "state", false)
+			}
+		default:
+			if r.Intn(6) == 0 {
+				g.emit(fmt.Sprintf("state 1 %d", r.Intn(2)), "state", false)
+			}
+		}
+		g.emit(ev+" 1", ev, true)
+		if r.Intn(3) == 0 {
+			g.emit("state 1 1", "state", false)
+		}
+		if r.Intn(5) == 0 {
+			g.emit(fmt.Sprintf("%s %d", evNames[r.Intn(4)], 2+r.Intn(2)), "other", true)
+		}
+		observe()
+	}
+	// the node is reported up again in the end: everything the history expects must be back
+	g.emit("state 1 1", "state", false)
+	observe()
+}
+
+// histories: every sequence of notifier calls of length 1..maxLen on the focus host + `extra` random longer ones,
+// for every policy kind, bare and token-aware
+func (g *gen) histories(maxLen, extra int) {
+	var seqs [][]int
+	var rec func(cur []int)
+	rec = func(cur []int) {
+		if len(cur) > 0 {
+			seqs = append(seqs, append([]int(nil), cur...))
+		}
+		if len(cur) == maxLen {
+			return
+		}
+		for e := 0; e < 4; e++ {
+			rec(append(cur, e))
+		}
+	}
+	rec(nil)
+	for i := 0; i < extra; i++ {
+		n := maxLen + 1 + g.r.Intn(4)
+		sq := make([]int, n)
+		for j := range sq {
+			sq[j] = g.r.Intn(4)
+		}
+		seqs = append(seqs, sq)
+	}
+	for _, kind := range []string{"rr", "dc", "rack"} {
+		for _, ta := range []bool{false, true} {
+			for _, sq := range seqs {
+				g.historyScenario(kind, ta, sq)
+			}
+		}
+	}
 }
 
 // exhaustive small scope (thorough): token-aware over every fallback kind, with and without non-local
@@ -821,6 +1266,20 @@ func main() {
 	r := vh.NewRng(vh.EnvSeed())
 	out := vh.NewOut(path)
 	g := &gen{r: r, out: out, w: &world{}}
+	// the two families with an observation right after every mutation come first, so that the first
+	// disagreements of a run are on observed sequences (spec-backed) and not on list snapshots
+	if tier == "thorough" {
+		g.histories(5, 400)
+	} else {
+		g.histories(3, 40)
+	}
+	nb := 150
+	if tier == "thorough" {
+		nb = 1500
+	}
+	for i := 0; i < nb; i++ {
+		g.boundaryScenario(i%4 == 3)
+	}
 	scen := 400
 	if tier == "thorough" {
 		scen = 400 * 30
